@@ -24,6 +24,7 @@ type zzTr struct {
 	closeCount int
 	onMsg      func(t *zzTr, m message.Message)
 	token      string
+	writesFail bool // half-dead link: writes fail, reads stay silent
 }
 
 func zzNewTr() *zzTr { return &zzTr{in: make(chan []byte, 64)} }
@@ -46,7 +47,7 @@ func (t *zzTr) Read() ([]byte, error) {
 
 func (t *zzTr) Write(bs []byte) error {
 	t.mu.Lock()
-	if t.closed {
+	if t.closed || t.writesFail {
 		t.mu.Unlock()
 		return transport.ErrAlreadyClosed
 	}
